@@ -21,7 +21,8 @@ LEVEL_TEXT = (
     "(R3) and_ops is written only under Wire::And and is the value stored in the result; (R4) every Reg is built from next_reg (or "
     "taken from the maps / free list), next_reg is incremented on every path that builds one, max_reg_count is next_reg, and the "
     "input instructions are emitted first with party = index of the party and input = index of the bit; (R5) the three From impls "
-    "and CircuitType::to_register all call RegisterAllocator::new and convert_circuit.")
+    "and CircuitType::to_register all call RegisterAllocator::new and convert_circuit; (R6) a register is reused or put on the free "
+    "list only when it comes out of wire_map.remove (its wire left the map), never from an index read.")
 LEVEL_NOTE = "Trusted: rustc MIR; HashMap / Vec behave as documented."
 EXPLANATION = "Functions analysed: register_circuit::{last_use_map, RegisterAllocator::convert_circuit, find_out_reg, From impls}, CircuitType::to_register."
 NOT_DECIDED = "bit-for-bit equivalence of the converted circuit; sufficiency of the register count (follows from R4 only together with the reuse logic, which is value-level)"
